@@ -307,7 +307,24 @@ func collect() {
 
 // spray allocates fresh objects in the small size classes and fills them, so that a read through a
 // stale address sees foreign contents instead of the leftovers of the collected object.
+var (
+	sprayPtrKeep [][]*uint64
+	sprayTarget  = uint64(0x4141414141414141)
+)
+
 func spray() {
+	// pointer-ful objects live in other spans than byte slices: small records that contain pointers (function
+	// instances, table entries' referents) are only ever overwritten by objects of the same kind
+	sprayPtrKeep = sprayPtrKeep[:0]
+	for n := 1; n <= 16; n++ {
+		for k := 0; k < 4096; k++ {
+			p := make([]*uint64, n)
+			for i := range p {
+				p[i] = &sprayTarget
+			}
+			sprayPtrKeep = append(sprayPtrKeep, p)
+		}
+	}
 	sprayKeep = sprayKeep[:0]
 	for _, sz := range []int{16, 24, 32, 48, 64, 80, 96, 112, 128, 192, 256, 512, 1024} {
 		for k := 0; k < 4096; k++ {
@@ -338,6 +355,11 @@ func childMain(path string) {
 	}
 	if len(h.Ops) > 0 && strings.HasPrefix(h.Ops[0], "outstanding") {
 		outstanding(&h, emit)
+		emit("DONE")
+		return
+	}
+	if len(h.Ops) > 0 && h.Ops[0] == "hostref" {
+		hostRef(&h, emit)
 		emit("DONE")
 		return
 	}
